@@ -214,6 +214,163 @@ def tear_probe(chk, d, quick):
                         chk.violation('C19:atomic-rmw-conservation:%s' % tag, '%s build (%s %s): %s (%s failures)' % (tag, cc, opt, c[2:], kv['count_bad']), files)
 
 
+def wasi_probe(chk, d, quick):
+    """The WASI host under both byte-order settings. A trampoline module (every WASI import + typed accessors st8..st64 / ld8..ld64, all
+    translated by w2c2) is linked with wasi.c twice, little-endian and forced big-endian. One scenario is driven through typed guest
+    accesses only (the guest writes its vectors / subscriptions with wasm stores and reads every result with wasm loads of the spec'd
+    width), with result pointers and structures at alignments 0..3. Both builds run on the SAME directory and must print the same lines."""
+    from vlib import wasih
+    import subprocess, time as _time
+
+    def extra(m):
+        for w, st, ld, t in ((8, 'i32.store8', 'i32.load8_u', I32), (16, 'i32.store16', 'i32.load16_u', I32), (32, 'i32.store', 'i32.load', I32), (64, 'i64.store', 'i64.load', I64)):
+            m.add_func([I32, t], [], [], [('local.get', 0), ('local.get', 1), (st, 0, 0)], export='st%d' % w)
+            m.add_func([I32], [t], [], [('local.get', 0), (ld, 0, 0)], export='ld%d' % w)
+
+    w2c2 = env.build_translator('plain')
+    mod = wasih.trampoline(extra=extra)
+    exes = {}
+    try:
+        for tag, defs in (('le', []), ('be', ['-DWASM_ENDIAN=1'])):
+            exes[tag], plan = wasih.build_driver(w2c2, os.path.join(d, 'wasi-' + tag), mod, ['-O1', '-g'], defs=defs)
+    except env.HarnessError as ex:
+        chk.violation('C19:wasi:compile', 'the WASI host does not build for one of the byte-order settings: %s' % str(ex)[-800:])
+        return
+    D = os.path.join(d, 'wasi-tree')
+    os.makedirs(os.path.join(D, 'sub'), exist_ok=True)
+    open(os.path.join(D, 'f'), 'wb').write(b'abcdefghijklmnopqrstuvwxyz')
+    open(os.path.join(D, 'zz'), 'wb').write(b'z')
+    if not os.path.lexists(os.path.join(D, 'lnk')):
+        os.symlink('f', os.path.join(D, 'lnk'))
+    order = [x for x in subprocess.run(['ls', '-f', D], capture_output=True, text=True).stdout.split('\n') if x]
+    lines_of = {}
+    tags = []          # parallel to the script lines: what the line observes (None = setup)
+
+    def build_script(m):
+        g = wasih.Guest(plan, 4096)
+        g.instantiate(args=[b'prog', b'--flag', b'x'], envs=[b'A=1', b'LONGER_NAME=value'], preopens=[D])
+        obs = []
+
+        def call(name, args, what=None, abi='p1'):
+            g.emit(('c 0 %d %s' % (plan.fk(abi + '_' + name if not name.startswith(('st', 'ld')) else name), ' '.join(hex(x & 0xffffffffffffffff) for x in args))).rstrip(), 'call')
+            obs.append(what)
+
+        def st(w, a, v):
+            call('st%d' % w, [a, v])
+
+        def sb(a, b):
+            for i, x in enumerate(b):
+                st(8, a + i, x)
+
+        def ld(w, a, what):
+            call('ld%d' % w, [a], what)
+
+        def lb(a, n, what):
+            for i in range(n):
+                ld(8, a + i, what)
+        R, S = 0x3000 + m, 0x2000 + m
+        call('args_sizes_get', [R, R + 8], 'errno'); ld(32, R, 'argc'); ld(32, R + 8, 'argv-size')
+        call('args_get', [0x4000 + m, 0x5000 + m], 'errno')
+        for i in range(3):
+            ld(32, 0x4000 + m + 4 * i, 'argv[%d]' % i)
+        lb(0x5000 + m, 14, 'argv-bytes')
+        call('environ_sizes_get', [R, R + 8], 'errno'); ld(32, R, 'envc'); ld(32, R + 8, 'env-size')
+        call('environ_get', [0x4100 + m, 0x5100 + m], 'errno')
+        for i in range(2):
+            ld(32, 0x4100 + m + 4 * i, 'envp[%d]' % i)
+        lb(0x5100 + m, 22, 'env-bytes')
+        call('fd_prestat_get', [3, R], 'errno'); ld(8, R, 'prestat-tag'); ld(32, R + 4, 'prestat-len')
+        call('fd_prestat_dir_name', [3, 0x6000 + m, len(D)], 'errno'); lb(0x6000 + m, min(len(D), 24), 'prestat-name')
+        sb(0x100, b'f'); sb(0x110, b'lnk'); sb(0x120, b'.')
+        rights = (1 << 1) | (1 << 2) | (1 << 5) | (1 << 6) | (1 << 21) | (1 << 22) | (1 << 23)
+        call('path_open', [3, 1, 0x100, 1, 0, rights, rights, 0, R], 'errno'); ld(32, R, 'opened-fd')
+        sb(0x7000, b'HELLO-endian')
+        st(32, S, 0x7000); st(32, S + 4, 5); st(32, S + 8, 0x7005); st(32, S + 12, 7)
+        call('fd_write', [4, S, 2, R], 'errno'); ld(32, R, 'nwritten')
+        call('fd_seek', [4, 2, 0, R], 'errno'); ld(64, R, 'seek-result')
+        call('fd_seek', [4, -1, 1, R], 'errno'); ld(64, R, 'seek-result')
+        call('fd_tell', [4, R], 'errno'); ld(64, R, 'tell-result')
+        st(32, S, 0x7100); st(32, S + 4, 3); st(32, S + 8, 0x7110 + m); st(32, S + 12, 9)
+        call('fd_read', [4, S, 2, R], 'errno'); ld(32, R, 'nread'); lb(0x7100, 3, 'read-bytes'); lb(0x7110 + m, 9, 'read-bytes')
+        call('fd_pread', [4, S, 2, 20, R], 'errno'); ld(32, R, 'nread'); lb(0x7100, 3, 'read-bytes')
+        st(32, S, 0x7000); st(32, S + 4, 2)
+        call('fd_pwrite', [4, S, 1, 24, R], 'errno'); ld(32, R, 'nwritten')
+        call('fd_fdstat_get', [4, R], 'errno'); ld(8, R, 'fdstat-type'); ld(16, R + 2, 'fdstat-flags'); ld(64, R + 8, 'fdstat-rights'); ld(64, R + 16, 'fdstat-rights')
+        # a file that the scenario never writes or reads; the harness gave it fixed times with utimensat before the run
+        sb(0x130, b'zz')
+        call('path_open', [3, 0, 0x130, 2, 0, (1 << 1) | (1 << 21), 0, 0, R], 'errno'); ld(32, R, 'opened-fd')
+        call('fd_filestat_get', [5, R], 'errno')
+        for off, w, what in ((0, 64, 'dev'), (8, 64, 'ino'), (16, 8, 'filetype'), (24, 64, 'nlink'), (32, 64, 'size'), (40, 64, 'atim'), (48, 64, 'mtim'), (56, 64, 'ctim')):
+            ld(w, R + off, 'filestat-' + what)
+        call('fd_filestat_get', [5, R], 'errno', abi='un')
+        for off, w, what in ((0, 64, 'dev'), (8, 64, 'ino'), (16, 8, 'filetype'), (20, 32, 'nlink'), (24, 64, 'size'), (32, 64, 'atim'), (40, 64, 'mtim'), (48, 64, 'ctim')):
+            ld(w, R + off, 'unstable-filestat-' + what)
+        call('fd_close', [5], 'errno')
+        call('path_filestat_get', [3, 1, 0x110, 3, R], 'errno')
+        for off, w, what in ((8, 64, 'ino'), (16, 8, 'filetype'), (32, 64, 'size')):
+            ld(w, R + off, 'path-filestat-' + what)
+        call('path_filestat_get', [3, 0, 0x110, 3, R], 'errno')
+        for off, w, what in ((8, 64, 'ino'), (16, 8, 'filetype'), (32, 64, 'size')):
+            ld(w, R + off, 'path-filestat-nofollow-' + what)
+        call('path_readlink', [3, 0x110, 3, 0x7200 + m, 64, R], 'errno'); ld(32, R, 'readlink-length'); lb(0x7200 + m, 1, 'readlink-bytes')
+        call('fd_seek', [4, 3, 2, R], 'errno', abi='un'); ld(64, R, 'unstable-seek-result')
+        call('path_open', [3, 0, 0x120, 1, 2, (1 << 14) | (1 << 21), 0, 0, R], 'errno'); ld(32, R, 'opened-fd')
+        B = 0x8000 + m
+        call('fd_readdir', [5, B, 2048, 0, R], 'errno'); ld(32, R, 'readdir-used')
+        off = 0
+        for nm in order:
+            ld(64, B + off, 'dirent-next'); ld(64, B + off + 8, 'dirent-ino'); ld(32, B + off + 16, 'dirent-namlen'); ld(8, B + off + 20, 'dirent-type')
+            lb(B + off + 24, len(nm.encode()), 'dirent-name')
+            off += 24 + len(nm.encode())
+        # second listing from the cookie of the first entry
+        call('fd_readdir', [5, B, 2048, 1, R], 'errno'); ld(32, R, 'readdir-used'); ld(32, B + 16, 'dirent-namlen')
+        call('clock_res_get', [1, R], 'errno'); ld(64, R, 'clock-res')
+        call('clock_time_get', [0, 1, R], 'errno'); ld(64, R, 'TIME')
+        call('fd_close', [5], 'errno'); call('fd_close', [4], 'errno')
+        return g.script(), obs
+
+    total = 0
+    for m in (0, 1, 2, 3):
+        script, obs = build_script(m)
+        outs = {}
+        t0 = int(_time.time() * 1e9)
+        for tag in ('le', 'be'):
+            open(os.path.join(D, 'f'), 'wb').write(b'abcdefghijklmnopqrstuvwxyz')
+            if tag == 'le':
+                os.utime(os.path.join(D, 'zz'), ns=(1234567890123456789, 987654321987654321))    # ctime moves here, once, before both runs
+            rr, out = wasih.run_script(exes[tag], d, script, tag='wasi-%s-%d' % (tag, m), timeout=120)
+            outs[tag] = (rr, [l for l in out if ' c ' in l])
+        t1 = int(_time.time() * 1e9)
+        files = {'script.txt': script, 'le.txt': '\n'.join(outs['le'][1]), 'be.txt': '\n'.join(outs['be'][1]), 'stderr.txt': (outs['le'][0].err + outs['be'][0].err).decode('latin-1')[-3000:]}
+        if outs['le'][0].rc != 0 or len(outs['le'][1]) != len(obs):
+            chk.inconclusive('WASI byte-order probe: the little-endian run failed (rc %s, %d of %d lines)' % (outs['le'][0].rc, len(outs['le'][1]), len(obs)))
+            continue
+        if outs['be'][0].rc != 0 or len(outs['be'][1]) != len(obs):
+            chk.violation('C19:wasi:crash', 'WASI host built for big-endian dies in the scenario (rc %s after %d of %d calls) with structures at alignment %d; the little-endian build completes' % (
+                outs['be'][0].rc, len(outs['be'][1]), len(obs), m), files)
+            continue
+        seen = set()
+        for i, what in enumerate(obs):
+            if what is None:
+                continue
+            total += 1
+            a, b = outs['le'][1][i].split(' -> ')[-1], outs['be'][1][i].split(' -> ')[-1]
+            if what == 'TIME':
+                for tag, v in (('le', a), ('be', b)):
+                    ns = int(v.split(':')[1], 16)
+                    if not (t0 - 5 * 10**9 <= ns <= t1 + 5 * 10**9) and ('time', tag) not in seen:
+                        seen.add(('time', tag))
+                        (chk.violation if tag == 'be' else chk.inconclusive)(*(('C19:wasi:clock_time_get', 'clock_time_get read back by the guest as %d ns, wall clock %d..%d (%s build)' % (ns, t0, t1, tag), files) if tag == 'be' else ('clock reading implausible on the little-endian build',)))
+                continue
+            if a != b and what not in seen:
+                seen.add(what)
+                chk.violation('C19:wasi:%s' % what.split('[')[0], 'guest reads %s as %s on the big-endian build and %s on the little-endian build (structures / result pointers at alignment %d, line "%s")' % (
+                    what, b, a, m, outs['be'][1][i][:80]), files)
+        chk.distinct(('wasi-probe', m))
+    chk.ev(total)
+    chk.observe('wasi_probe_guest_observations', total, 'set')
+
+
 def main(chk):
     quick = chk.tier == 'quick'
     d = env.subdir('c19')
@@ -299,6 +456,7 @@ def main(chk):
     high_probe(chk, d)
     detection_probe(chk, d)
     tear_probe(chk, d, quick)
+    wasi_probe(chk, d, quick)
     chk.observe('flavours_probed', 14 + 9 + 14 + 42 + 7, 'set')
     chk.sample({'case': 'i64_atomic_rmw16_add_u on window X (BE build) vs on R(X) (LE build): same return value, after-windows related by one 2-byte reversal'})
     # ---- module level: translated histories must give the same call results on both builds (thorough, cheap enough for quick too)
